@@ -887,5 +887,17 @@ for _p in ("C01", "C16"):
 PROPS["C01"]["rules"] = PROPS["C01"]["rules"] + [rules_limits.rule_append_gap_filled]
 PROPS["C01"]["explanation"] += " (GAPZERO) the branch of Hwrite that extends an appendable element in place writes the gap between the old end and the write position."
 
+# round 15
+PROPS["C12"]["rules"] = PROPS["C12"]["rules"] + [rules_loops.rule_end_scan, rules_loops.rule_carried_index_reset]
+PROPS["C12"]["explanation"] += " (ENDSCAN) HTPstart's end-of-file estimate measures every DD block and every element. (IDXRESET) a resumed scan of a DD block is given the next block's starting slot inside the walk over the blocks."
+PROPS["C08"]["rules"] = PROPS["C08"]["rules"] + [rules_handles.rule_member_count_source]
+PROPS["C08"]["explanation"] += " (LIVECOUNT) a Vgroup's member count is reported from vg->nvelt, never from the instance's attach-time copy."
+for _p in ("C09",):
+    PROPS[_p]["rules"] = PROPS[_p]["rules"] + [rules_gr.rule_data_length_positive, rules_gr.rule_whole_image_seek]
+    PROPS[_p]["explanation"] += " (HASDATA) an image has data when its element's length is > 0. (WHOLESEEK) the whole-image arms seek to offset 0 before their transfer."
+
+PROPS["C08"]["rules"] = PROPS["C08"]["rules"] + [rules_handles.rule_cross_object_compare]
+PROPS["C08"]["explanation"] += " (SELFCMP) see C13: the same-file guard of Vinsert compares fields of two different objects."
+
 NOT_APPLICABLE = {}
 
